@@ -237,8 +237,9 @@ def unroll_literal_loops(evs):
             if x[0] == "item" and strip_sites(x) == key:
                 return el
             return tuple(rep(y, el) if isinstance(y, tuple) and not isinstance(y, frozenset) else y for y in x)
-        for el in elems:
+        for eli, el in enumerate(elems):
             d = dict(e.d)
+            d["unrolled"] = (node[2], eli, len(elems))      # (loop header, which element, of how many)
             if e.kind == "write":
                 d["loc"] = rep(d["loc"], el)
                 d["val"] = rep(d["val"], el)
@@ -247,13 +248,17 @@ def unroll_literal_loops(evs):
             facts = frozenset(rep(f, el) for f in e.facts
                               if not (f[0] == "in" and strip_load(f[1])[0] == "discr" and strip_load(strip_load(f[1])[1])[0] == "next" and
                                       strip_sites(strip_load(strip_load(f[1])[1])[1]) == strip_sites(node[1])))
-            ne = Ev(e.kind, e.body, e.site, facts, e.chain, **d)
-            ne.uncond = e.uncond
-            if not e.uncond and isinstance(node[2], int) and not e.chain:
+            plain = False
+            if isinstance(node[2], int) and not e.chain:
                 # nothing but the iteration itself guards the event: it happens for every element
                 hdr = e.body.facts_at((node[2], 0))
+                plain = facts <= frozenset(rep(f, el) for f in hdr)
+            d["unrolled"] = (node[2], eli, len(elems), plain)
+            ne = Ev(e.kind, e.body, e.site, facts, e.chain, **d)
+            ne.uncond = e.uncond
+            if not e.uncond and plain:
                 pd = e.body.pdom()
-                if facts <= frozenset(rep(f, el) for f in hdr) and 0 in pd and node[2] in pd[0]:
+                if 0 in pd and node[2] in pd[0]:
                     ne.uncond = True
             out.append(ne)
     return out
